@@ -1,6 +1,6 @@
 (* C14 - the property theorems, assembled clause by clause from the per-generator files, with non-vacuity
    examples.  Admissible parameters = those the generated guards accept (`g_rejects p = false`, see all_rejects). *)
-From Coq Require Import ZArith List Bool Lia Reals.
+From Coq Require Import ZArith List Bool Lia Reals String.
 Import ListNotations.
 Require Import MV.Lib.Base MV.C14.Model MV.C14.Gen MV.C14.ProofsLib.
 Require Import MV.C14.ProofsGrid MV.C14.ProofsTri MV.C14.ProofsTorus MV.C14.ProofsSphere MV.C14.ProofsCyl
@@ -251,7 +251,9 @@ Lemma all_switches :
   (forall n, chain_of_vertices_edges n true = map (fun i => [i; (i + 1) mod n]) (zrange n)) /\
   (forall n, vector_field_edges n = map (fun i => [2 * i; 2 * i + 1]) (zrange n)) /\
   (* dual: one face per vertex of the input (its ring of faces), one vertex per face *)
-  (forall v2f nV nF, 0 <= nV -> 0 <= nF -> dual_mesh_nverts v2f nV nF = nF /\ dual_mesh_faces v2f nV nF = map v2f (zrange nV)).
+  (forall v2f nV nF, 0 <= nV -> 0 <= nF -> dual_mesh_nverts v2f nV nF = nF /\ dual_mesh_faces v2f nV nF = map v2f (zrange nV)) /\
+  (* ... whose vertices are, per mode, a NON persistent attribute computed from the mesh on every call (mode, function, persistent) *)
+  dual_mesh_modes = [("barycenter"%string, "face_barycenter"%string, false); ("circumcenter"%string, "face_circumcenter"%string, false)].
 Proof.
   conjs; intros; acc; conjs.
   - apply Forall_forall. intros f Hf. apply grid_face_In in Hf as [i [j [_ [_ Hf]]]]; try lia.
@@ -272,6 +274,7 @@ Proof.
   - apply vector_field_edges_eq.
   - apply dual_counts; auto.
   - apply dual_counts; auto.
+  - reflexivity.
 Qed.
 
 (* ---------------------------------------------------------------- 6. vertices on the named surface (over the reals) *)
@@ -286,7 +289,7 @@ Lemma all_on_surface :
   (forall P1 P2 P3 P4 v, tetrahedron_coords Rops P1 P2 P3 P4 v = [P1; P2; P3; P4]) /\
   (forall P1 P2 P3 P4 P5 P6 P7 P8 c t v, hexahedron_coords Rops P1 P2 P3 P4 P5 P6 P7 P8 c t v = [P1; P2; P3; P4; P5; P6; P7; P8]) /\
   (forall P1 P2 P3 P4 c v, let X := hexahedron_4pts_coords Rops P1 P2 P3 P4 c v in
-     List.nth 0 X P1 = P1 /\ List.nth 1 X P1 = P2 /\ List.nth 3 X P1 = P3 /\ List.nth 4 X P1 = P4 /\ length X = 8%nat) /\
+     List.nth 0 X P1 = P1 /\ List.nth 1 X P1 = P2 /\ List.nth 3 X P1 = P3 /\ List.nth 4 X P1 = P4 /\ List.length X = 8%nat) /\
   (forall N d o k apex, exists rim, ring_coords Rops N d o k apex = apex :: rim /\ Forall on_unit_circle rim) /\
   (forall (P1 P2 : vec R) (radius : R) N caps, (0 < dot3 (vsub Rops P2 P1) (vsub Rops P2 P1))%R ->
      let a := vnormalized Rops (vsub Rops P2 P1) in
